@@ -124,7 +124,7 @@ pub trait Check: Sync {
     /// wall-clock limit for ONE run before it is treated as a hang (generous: normal runs take
     /// milliseconds; only the Miri-scheduled real-rayon runs of C14 take tens of seconds)
     fn wall_limit_s(&self) -> u64 {
-        120
+        600
     }
     fn rule(&self) -> String;
     fn assumptions(&self) -> Vec<String>;
